@@ -608,8 +608,9 @@ Proof.
   rewrite !forallb_app in P. repeat (apply andb_true_iff in P; let Q := fresh "Q" in destruct P as [Q P]).
   rewrite !trnuid_of_plain by assumption.
   assert (PM : Permutation ((u3 ++ u4) ++ (u0 ++ u1) ++ u2) (u0 ++ u1 ++ u2 ++ u3 ++ u4)).
-  { rewrite (app_assoc u0 u1), (app_assoc (u0 ++ u1) u2). rewrite (app_assoc (u3 ++ u4)).
-    apply Permutation_app_comm. }
+  { assert (E1 : ((u3 ++ u4) ++ (u0 ++ u1) ++ u2 = (u3 ++ u4) ++ (u0 ++ u1 ++ u2))%list) by (rewrite <- !app_assoc; reflexivity).
+    assert (E2 : (u0 ++ u1 ++ u2 ++ u3 ++ u4 = (u0 ++ u1 ++ u2) ++ (u3 ++ u4))%list) by (rewrite <- !app_assoc; reflexivity).
+    rewrite E1, E2. apply Permutation_app_comm. }
   assert (ND5 : NoDup (u0 ++ u1 ++ u2 ++ u3 ++ u4)).
   { rewrite !app_assoc in ND. apply NoDup_app_l in ND. rewrite <- !app_assoc in ND. exact ND. }
   split; [|split].
